@@ -18,12 +18,16 @@ MC_BaseCalls == <<
     Call("Slice", 3, 0, "", NoLit, NoneI, NoneI, 2, ""),
     Call("SBin", 1, 2, "+", NoLit, 0, 0, 0, ""),
     Call("VBinLit", 3, 0, "+", LitS("int", Q(1, 1)), 0, 0, 0, ""),
-    Call("SBinLit", 1, 0, "+", LitS("int", Q(10, 1)), 0, 0, 0, "")
+    Call("SBinLit", 1, 0, "+", LitS("int", Q(10, 1)), 0, 0, 0, ""),
+    Call("Sum", 3, 0, "", NoLit, 0, 0, 0, ""),
+    Call("LinComb", 3, 0, "", Lit("arr", <<Q(2,1), Q(1,1), Q(-3,1)>>, <<3>>), 0, 0, 0, "")
   >>
 MC_AllNames == {<<"s">>, <<"t">>, <<"x", 0>>, <<"x", 1>>, <<"x", 2>>}
 MC_En == {"Sum", "LinComb", "SBin", "SBinLit", "SNeg", "VBinLit", "VNeg", "Index", "CmpLit", "Cmp", "Problem"}
 MC_EnMax == MC_En \cup {"Maximize"}
 MC_Exprs == {"Sum", "LinComb", "SBin", "SBinLit", "SNeg", "VBinLit", "VNeg", "Index"}
+MC_ObjCands == {2, 10, 13, 14}      \* t, s + t, x.sum(), c @ x
+MC_ObjCandsQ == {10, 13}           \* quick tier: one scalar objective, one that brings every element of x into the problem
 MC_Stages == << MC_Exprs, {"CmpLit", "Cmp"}, {"Problem"} >>
 MC_StagesDeep == << MC_Exprs, MC_Exprs, {"CmpLit", "Cmp"}, {"Problem"} >>
 MC_FinalEn == {}
